@@ -329,6 +329,25 @@ def ob_hierarchical_distribution():
     return Ob("C10.sample_shape.hierarchical[Distribution,x and loc batched]", "V", body, clause="sample-shape inference: x and parameters both batched", funcs=FUNCS)
 
 
+class _SiteEval:
+    """callable view of a real WeibullSiteModel (3 categories + invariant + relative rate): evaluation = rates() or probabilities()"""
+
+    def __init__(self, v, what):
+        from torchtree.core.parameter import Parameter
+        from torchtree.evolution.site_model import WeibullSiteModel
+        self.m = WeibullSiteModel("sm", Parameter("shape", v["wshape"]), 3, Parameter("inv", v["winv"]), Parameter("mu", v["wmu"]))
+        self.what = what
+
+    no_joint = True
+
+    def __call__(self):
+        return getattr(self.m, self.what)()
+
+    @property
+    def sample_shape(self):
+        return self.m.sample_shape if hasattr(self.m, "sample_shape") else torch.Size([])
+
+
 def _real_models():
     """name -> (input names, build(inputs dict of tensors) -> CallableModel).  Inputs are given unbatched shapes; the obligation batches
     one subset at a time."""
@@ -342,6 +361,7 @@ def _real_models():
     tree = ((0, 1), (2, 3))
     tips = [0.0, 0.5, 0.0, 1.0]
     base = {"heights": t64([1.2, 2.0, 3.0]), "theta1": t64([2.0]), "theta3": t64([2.0, 3.0, 1.5]), "growth1": t64([0.3]), "growth3": t64([0.3, -0.5, 0.8]),
+            "wshape": t64([0.7]), "winv": t64([0.2]), "wmu": t64([1.5]),
             "field": t64([0.3, -0.2, 1.1]), "tau": t64([2.0]), "R": t64([1.5]), "delta": t64([1.0]), "s": t64([0.3]), "rho": t64([0.4]), "origin": t64([5.0])}
     grid = t64([0.8, 2.1])
 
@@ -357,6 +377,8 @@ def _real_models():
         "PiecewiseLinearCoalescentGridModel": (("heights", "theta3"), lambda v: co.PiecewiseLinearCoalescentGridModel("m", P("theta3", v), Parameter("grid", grid.clone()), tm(v))),
         "GMRF": (("field", "tau"), lambda v: gm.GMRF("m", P("field", v), P("tau", v))),
         "GMRF.timeaware": (("field", "tau", "heights"), lambda v: gm.GMRF("m", P("field", v), P("tau", v), tm(v))),
+        "WeibullSiteModel.rates": (("wshape", "winv", "wmu"), lambda v: _SiteEval(v, "rates")),
+        "WeibullSiteModel.probabilities": (("wshape", "winv", "wmu"), lambda v: _SiteEval(v, "probabilities")),
         "BDSKModel": (("heights", "R", "delta", "s", "rho", "origin"),
                       lambda v: bd.BDSKModel("m", tm(v), P("R", v), P("delta", v), P("s", v), rho=P("rho", v), origin=P("origin", v))),
     }
@@ -387,6 +409,23 @@ def ob_real_model_sample_shapes():
                             v = m()
                         except Exception as e:
                             raised.append("%s%s" % (mname, list(sub)))
+                            # an unsupported combination must KEEP failing: a second evaluation request without any change either raises again
+                            # or returns the per-sample values (never numbers computed from a half-updated state)
+                            try:
+                                v2 = m()
+                            except Exception:
+                                continue
+                            want2 = []
+                            try:
+                                for i in range(S):
+                                    sl = {k: (vals[k][i] if k in sub else vals[k]) for k in inputs}
+                                    want2.append(build(sl)().reshape(-1).sum())
+                                ok2 = isinstance(v2, torch.Tensor) and v2.shape[:1] == (S,) and torch.allclose(v2.reshape(S, -1).sum(-1), torch.stack(want2), rtol=1e-9, atol=1e-11)
+                            except Exception:
+                                ok2 = False
+                            if not ok2:
+                                bad.append("%s, S=%d, batched inputs %s: the first evaluation raises %s but a second one returns %s"
+                                           % (mname, S, list(sub), type(e).__name__, [round(float(x), 6) for x in v2.reshape(-1)[:4]] if isinstance(v2, torch.Tensor) else repr(v2)))
                             continue
                         n += 1
                         want = []
@@ -402,6 +441,8 @@ def ob_real_model_sample_shapes():
                         if not torch.allclose(got, want, rtol=1e-9, atol=1e-11):
                             bad.append("%s: per-sample values %s, values of the slices %s" % (tag, got.tolist(), want.tolist()))
                             continue
+                        if getattr(m, "no_joint", False):
+                            continue       # not a CallableModel (site-model accessor): value check only
                         if tuple(m.sample_shape) != (S,):
                             bad.append("%s: sample_shape reported as %s" % (tag, tuple(m.sample_shape)))
                             continue
@@ -420,6 +461,41 @@ def ob_real_model_sample_shapes():
         return {"backend": "heap", "cases": n, "raised": "%d combinations raise (accepted): %s" % (len(raised), raised[:6]),
                 "statement": "%d (model, batched-input subset, S) combinations: per-sample values = values of the slices; sample_shape reported; joint agrees" % n}
     return Ob("C10.sample_shape.real_models", "B", body, clause="a model whose inputs are only partly batched still reports the sample shape and a joint does not add across samples", funcs=FUNCS)
+
+
+def ob_underflow_mixed_batch(use_tip_states):
+    """a batch in which only SOME samples underflow in the plain pass (real underflow, 400-taxon JC69 caterpillar): every sample's value is
+    the value of that sample evaluated alone in a fresh model (finite) — the switch to rescaling is not decided for the batch as a whole"""
+    def body():
+        import contracts.C03 as C03
+        from specs import treemodels
+        torch.set_num_threads(1)
+        T = 400
+        n = 0
+        for cases in ([3.0, 0.01], [0.01, 3.0], [3.0, 0.01, 2.5]):
+            m = C03._caterpillar_batch_model(T, cases, use_tip_states)
+            got = m().reshape(-1)
+            for k, b in enumerate(cases):
+                single = C03._caterpillar_model(T, False, use_tip_states)
+                treemodels.tree_parameter(single.tree_model).tensor = torch.full((2 * T - 3,), float(b), dtype=torch.float64)
+                want = float(single().reshape(-1)[0])
+                n += 1
+                x = float(got[k])
+                if not (x == x) or abs(x) == float("inf") or abs(x - want) > 1e-8 * abs(want):
+                    raise Refuted("batch of branch-length samples %s (tip_states=%s): sample %d returns %r in the batch and %r evaluated alone"
+                                  % (cases, use_tip_states, k, x, want), witness={"cases": cases, "sample": k},
+                                  replay={"kind": "custom", "contract": "C10", "func": "replay_underflow_mixed_batch", "args": {"tip_states": use_tip_states}}, confirmed=True)
+        return {"backend": "concrete", "cases": n, "statement": "%d samples of mixed (underflowing / not underflowing) batches equal their single-sample evaluation" % n}
+    return Ob("C10.likelihood.underflow_mixed_batch[tip_states=%s]" % use_tip_states, "B", body,
+              clause="result[s] is the result of the s-th slice also when only some samples underflow", funcs=FUNCS, timeout=600)
+
+
+def replay_underflow_mixed_batch(args):
+    try:
+        ob_underflow_mixed_batch(args["tip_states"]).fn()
+    except Refuted as e:
+        return False, e.detail
+    return True, "held"
 
 
 def replay_real_model_sample_shapes(args):
@@ -514,5 +590,7 @@ def obligations(tier, seed):
                                    clause="joint adds components of the same sample only", funcs=FUNCS, seed=seed))
     obs.append(ob_sample_shape_helpers())
     obs.append(ob_real_model_sample_shapes())
+    for ts_ in (False, True):
+        obs.append(ob_underflow_mixed_batch(ts_))
     obs.append(ob_hierarchical_distribution())
     return obs
